@@ -77,9 +77,19 @@ ASSUME PlmnIntRoundTrip
 \* ---- the generator tree of malformed inputs
 MutVals(o) == {v \in {o - 1, o + 1, 0, 1, 2, 65535} : v >= 0 /\ v <= 65535}
 Muts(b, lp) == {SubSeq(b, 1, n) : n \in 0..Len(b)} \cup UNION {{UePatch16(b, p, v) : v \in MutVals(UeU16(b, p))} : p \in lp}
-MachInputs(g) ==
-  IF g = "list" THEN UNION {Muts(UeMarshalSubs(x), UeLenPosSubs(x, 1)) : x \in Lists(MachSub, MachIns, MachPart)}
-  ELSE UNION {Muts(UeMarshalSubRess(x), UeLenPosSubRess(x, 1)) : x \in Results(MachSub, MachRes)}
-MInit == \E g \in {"list", "result"} : \E b \in MachInputs(g) : PInit(b, g)
-MSpec == MInit /\ [][PNext]_pvars
+\* An initial state holds one structure (its encoding and length-field positions); the first step
+\* picks one input of its mutation tree, then the machine runs.  (Choosing the input in a step rather
+\* than in Init lets all workers share the enumeration.)
+VARIABLE src
+Sources ==
+  {[b |-> UeMarshalSubs(x), lp |-> UeLenPosSubs(x, 1), g |-> "list"] : x \in Lists(MachSub, MachIns, MachPart)}
+  \cup {[b |-> UeMarshalSubRess(x), lp |-> UeLenPosSubRess(x, 1), g |-> "result"] : x \in Results(MachSub, MachRes)}
+MInit == /\ src \in Sources
+         /\ inp = << >> /\ gram = src.g /\ pos = 1 /\ status = "pick" /\ steps = 0
+         /\ stack = << Frame(1, [k |-> "top"]) >>
+Pick == /\ status = "pick"
+        /\ \E b \in Muts(src.b, src.lp) : PStart(b, src.g)
+        /\ UNCHANGED src
+MNext == Pick \/ (status # "pick" /\ PNext /\ UNCHANGED src)
+MSpec == MInit /\ [][MNext]_<< pvars, src >>
 =============================================================================
